@@ -630,6 +630,25 @@ func (g *Gen) genUpdateClassIssuers() *eng.Tx {
 			m.RemoveIssuers = append(m.RemoveIssuers, g.actor())
 		}
 	}
+	if g.chance(0.25) {
+		// a stale revocation list: an address that is not (or no longer) an issuer listed before a real one
+		stale := g.actor()
+		if fs := g.formerIssuers[c.Id]; len(fs) > 0 && g.chance(0.5) {
+			stale = fs[g.R.Intn(len(fs))]
+		}
+		dup := false
+		for _, r := range m.RemoveIssuers {
+			if r == stale {
+				dup = true
+			}
+		}
+		if !dup {
+			m.RemoveIssuers = append([]string{stale}, m.RemoveIssuers...)
+			if len(cur) > 1 && len(m.RemoveIssuers) == 1 {
+				m.RemoveIssuers = append(m.RemoveIssuers, cur[g.R.Intn(len(cur))])
+			}
+		}
+	}
 	if len(m.AddIssuers) == 0 && len(m.RemoveIssuers) == 0 {
 		m.AddIssuers = []string{g.actor()}
 	}
